@@ -72,6 +72,7 @@ def pairs_of(sel):
 
 
 AUTO_POOL = {'mode': 'selected', 'all': None}
+PINNED = set()
 
 
 def auto_tag_of(sel):
@@ -338,6 +339,16 @@ def run_one(entry, form, pattern, sel_idx, kwc, compiled, disorder=False, reconc
     if has_nan(got):
         return dict(ok=False, kind='nan', detail='result is not finite: %s' % show(got)[:300], desc=desc)
     exp = expected(entry, sel, kw)
+    if not same(got, exp) and 'auto_pool_list' in PINNED and kwc == 'auto' and form.startswith('indices') and len(sel_idx) < len(pattern):
+        # recorded finding D12: accept exactly the recorded behaviour (threshold pooled over the whole list) besides the correct one
+        old = AUTO_POOL['mode']
+        AUTO_POOL['mode'] = 'list'
+        try:
+            exp2 = expected(entry, sel, kw)
+        finally:
+            AUTO_POOL['mode'] = old
+        if same(got, exp2):
+            return dict(ok=True, desc=desc, got=show(got)[:200], known='auto_pool_list')
     if not same(got, exp):
         return dict(ok=False, kind='mismatch', detail='got %s  expected %s' % (show(got)[:400], show(exp)[:400]), desc=desc)
     return dict(ok=True, desc=desc, got=show(got)[:200])
@@ -459,7 +470,9 @@ def family_avg(n, tier):
                             yield (de, pe, form, pat, sel, kwc, compiled)
 
 
-def run_family(name, n, tier, max_fail=25):
+def run_family(name, n, tier, max_fail=25, pinned=()):
+    PINNED.clear()
+    PINNED.update(pinned)
     if name == 'auto':
         AUTO_POOL['mode'] = 'list'
     else:
